@@ -20,7 +20,7 @@ use super::*;
 use font_types::GlyphId;
 use read_fonts::collections::IntSet;
 use read_fonts::tables::colr::Colr;
-use read_fonts::{FontData, FontRead, ReadError};
+use read_fonts::{FontData, FontRead, ReadError, ResolveOffset};
 
 // ------------------------------------------------------------------------------------------------
 // helpers
@@ -108,6 +108,19 @@ impl Out {
 /// one correspondence case: the real code inside `catch`, its oracles, then `ctx.case`
 fn ask(ctx: &mut Ctx, req: String, bytes: &[u8], f: impl FnOnce() -> Out) {
     PROGRESS.fetch_add(1, Ordering::Relaxed);
+    {
+        // what the watchdog / the crash tracer report as the current input
+        let mut cur = CURRENT.lock().unwrap();
+        cur.0.clear();
+        cur.0.push_str(&req);
+        cur.1.clear();
+        cur.1.extend_from_slice(bytes);
+    }
+    if let Some(t) = TRACE.lock().unwrap().as_mut() {
+        use std::io::Write;
+        let _ = writeln!(t, "{} {}", req, hex(bytes));
+        let _ = t.flush();
+    }
     ctx.count(&format!("cases.{}", req.split(' ').next().unwrap_or("")));
     match catch(f) {
         Ok(out) => {
@@ -479,6 +492,10 @@ fn colr_v1_raw(records: &[(u16, u32)], layers: &[u32], paints: &[u8]) -> Vec<u8>
 // COLR: lookups
 
 fn colr_probe_gids(bytes: &[u8]) -> (Vec<u32>, Vec<usize>) {
+    catch(|| colr_probe_gids_inner(bytes)).unwrap_or((vec![0, 1, 0xFFFF, 0x1_0000], vec![0, 1]))
+}
+
+fn colr_probe_gids_inner(bytes: &[u8]) -> (Vec<u32>, Vec<usize>) {
     let mut vals: Vec<u32> = vec![];
     let mut n0 = 0usize;
     let mut n1 = 0usize;
@@ -539,7 +556,7 @@ fn colr_lookups(bytes: &[u8], gids: &[u32], idxs: &[usize]) -> Out {
         let v0 = match colr.v0_base_glyph(gid) {
             Ok(None) => "N".to_string(),
             Ok(Some(r)) => {
-                out.check("v0-range", r.start <= r.end && r.end - r.start <= 0xFFFF && r.start <= 0xFFFF, || format!("v0_base_glyph({g}) = {r:?}"));
+                out.check("v0-range", r.start <= r.end && r.end <= r.start + 0xFFFF && r.start <= 0xFFFF, || format!("v0_base_glyph({g}) = {r:?}"));
                 // every index of the range is answered by v0_layer without panic: Ok below the layer count, Err above
                 for i in [r.start, r.end.wrapping_sub(1), r.end] {
                     let l = colr.v0_layer(i);
@@ -600,6 +617,10 @@ fn colr_lookups(bytes: &[u8], gids: &[u32], idxs: &[usize]) -> Out {
 
 /// total `num_layers` of the v0 records (work of a v0 closure over a set that hits every record)
 fn v0_work(bytes: &[u8]) -> usize {
+    catch(|| v0_work_inner(bytes)).unwrap_or(0)
+}
+
+fn v0_work_inner(bytes: &[u8]) -> usize {
     match Colr::read(FontData::new(bytes)).ok().and_then(|c| c.base_glyph_records()) {
         Some(Ok(recs)) => recs.iter().map(|r| r.num_layers() as usize).sum(),
         _ => 0,
@@ -646,6 +667,7 @@ fn colr_closures(bytes: &[u8], set: &[u32]) -> Out {
 }
 
 fn colr_cases(ctx: &mut Ctx, what: &str, bytes: &[u8], closures: bool) {
+    colr_branches(ctx, bytes);
     let (gids, idxs) = colr_probe_gids(bytes);
     ask(ctx, format!("hc.colr {} {} | {}", hex(bytes), join(&gids), join(&idxs)), bytes, || colr_lookups(bytes, &gids, &idxs));
     ctx.count(&format!("{what}.lookups"));
@@ -659,9 +681,27 @@ fn colr_cases(ctx: &mut Ctx, what: &str, bytes: &[u8], closures: bool) {
 
 /// branch distribution of the modelled COLR functions on the unmodified inputs
 fn colr_branches(ctx: &mut Ctx, bytes: &[u8]) {
+    // (a panic of the real code here is reported by the `hc.colr` case of the same input)
+    for k in catch(|| colr_branch_keys(bytes)).unwrap_or_default() {
+        ctx.count(&k);
+    }
+}
+
+/// keys counted by `colr_branches`
+struct Keys(Vec<String>);
+
+impl Keys {
+    fn count(&mut self, k: &str) {
+        self.0.push(k.to_string());
+    }
+}
+
+fn colr_branch_keys(bytes: &[u8]) -> Vec<String> {
+    let mut keys = Keys(vec![]);
+    let ctx = &mut keys;
     let Ok(colr) = Colr::read(FontData::new(bytes)) else {
         ctx.count("branch.read.err");
-        return;
+        return keys.0;
     };
     let (gids, idxs) = colr_probe_gids(bytes);
     for g in &gids {
@@ -701,12 +741,146 @@ fn colr_branches(ctx: &mut Ctx, bytes: &[u8]) {
         };
         ctx.count(&format!("branch.v1_layer.{k}"));
     }
-    // paint formats reachable from the base glyph list / layer list
+    // what the v1 closure meets from the base glyph list / layer list (three levels deep)
     if let Some(Ok(bl)) = colr.base_glyph_list() {
-        for r in bl.base_glyph_paint_records() {
-            if let Ok(p) = r.paint(bl.offset_data()) {
-                ctx.count(&format!("branch.root-paint.f{}", p.format()));
+        for r in bl.base_glyph_paint_records().iter().take(6) {
+            match r.paint(bl.offset_data()) {
+                Ok(p) => profile_paint(&colr, &p, ctx, 0),
+                Err(_) => ctx.count("branch.closure.root.paint-err"),
             }
+        }
+    } else {
+        ctx.count("branch.closure.no-base-list");
+    }
+    match colr.clip_list() {
+        Some(Ok(cl)) => {
+            for c in cl.clips().iter().take(6) {
+                match c.clip_box(cl.offset_data()) {
+                    Err(_) => ctx.count("branch.closure.clip.box-err"),
+                    Ok(b) => ctx.count(&format!("branch.closure.clip.f{}{}", b.format(), if c.start_glyph_id() > c.end_glyph_id() { ".empty-range" } else { "" })),
+                }
+            }
+        }
+        _ => ctx.count("branch.closure.no-clip-list"),
+    }
+    keys.0
+}
+
+use read_fonts::tables::colr::Paint;
+
+fn profile_child(colr: &Colr, r: Result<Paint, ReadError>, keys: &mut Keys, depth: u32, what: &str) {
+    match r {
+        Ok(c) => {
+            keys.count(&format!("branch.closure.{what}.child-ok"));
+            if depth < 3 {
+                profile_paint(colr, &c, keys, depth + 1);
+            }
+        }
+        Err(_) => keys.count(&format!("branch.closure.{what}.child-err")),
+    }
+}
+
+fn profile_var(keys: &mut Keys, base: u32, n: u32) {
+    let k = if base == u32::MAX {
+        "none"
+    } else if base.checked_add(n - 1).is_none() {
+        "saturated"
+    } else {
+        "plain"
+    };
+    keys.count(&format!("branch.closure.var-index.{k}"));
+}
+
+/// the branches `Paint::v1_closure` takes on this paint
+fn profile_paint(colr: &Colr, p: &Paint, keys: &mut Keys, depth: u32) {
+    keys.count(&format!("branch.closure.paint.f{}", p.format()));
+    macro_rules! unary {
+        ($t:expr) => {
+            profile_child(colr, $t.paint(), keys, depth, "unary")
+        };
+    }
+    macro_rules! unary_var {
+        ($t:expr, $n:expr) => {{
+            profile_child(colr, $t.paint(), keys, depth, "unary");
+            profile_var(keys, $t.var_index_base(), $n);
+        }};
+    }
+    match p {
+        Paint::ColrLayers(l) => {
+            let n = l.num_layers();
+            if n == 0 {
+                keys.count("branch.closure.layers.zero");
+                return;
+            }
+            let Some(Ok(ll)) = colr.layer_list() else {
+                keys.count("branch.closure.layers.no-list");
+                return;
+            };
+            let first = l.first_layer_index();
+            if first.checked_add(n as u32 - 1).is_none() {
+                keys.count("branch.closure.layers.saturated");
+            }
+            let last = first.saturating_add(n as u32 - 1);
+            for i in (first..=last).take(4) {
+                match ll.paint_offsets().get(i as usize) {
+                    None => keys.count("branch.closure.layers.index-beyond"),
+                    Some(o) => profile_child(colr, o.get().resolve::<Paint>(ll.offset_data()), keys, depth, "layers"),
+                }
+            }
+        }
+        Paint::Solid(_) => {}
+        Paint::VarSolid(s) => profile_var(keys, s.var_index_base(), 1),
+        Paint::LinearGradient(g) => keys.count(if g.color_line().is_ok() { "branch.closure.colorline.ok" } else { "branch.closure.colorline.err" }),
+        Paint::RadialGradient(g) => keys.count(if g.color_line().is_ok() { "branch.closure.colorline.ok" } else { "branch.closure.colorline.err" }),
+        Paint::SweepGradient(g) => keys.count(if g.color_line().is_ok() { "branch.closure.colorline.ok" } else { "branch.closure.colorline.err" }),
+        Paint::VarLinearGradient(g) => {
+            keys.count(if g.color_line().is_ok() { "branch.closure.varcolorline.ok" } else { "branch.closure.varcolorline.err" });
+            profile_var(keys, g.var_index_base(), 6);
+        }
+        Paint::VarRadialGradient(g) => {
+            keys.count(if g.color_line().is_ok() { "branch.closure.varcolorline.ok" } else { "branch.closure.varcolorline.err" });
+            profile_var(keys, g.var_index_base(), 6);
+        }
+        Paint::VarSweepGradient(g) => {
+            keys.count(if g.color_line().is_ok() { "branch.closure.varcolorline.ok" } else { "branch.closure.varcolorline.err" });
+            profile_var(keys, g.var_index_base(), 4);
+        }
+        Paint::Glyph(g) => profile_child(colr, g.paint(), keys, depth, "glyph"),
+        Paint::ColrGlyph(g) => {
+            let k = match colr.v1_base_glyph(GlyphId::from(g.glyph_id())) {
+                Ok(Some(_)) => "found",
+                Ok(None) => "missing",
+                Err(ReadError::NullOffset) => "no-base-list",
+                Err(_) => "paint-err",
+            };
+            keys.count(&format!("branch.closure.colrglyph.{k}"));
+        }
+        Paint::Transform(t) => unary!(t),
+        Paint::VarTransform(t) => {
+            profile_child(colr, t.paint(), keys, depth, "unary");
+            keys.count(if t.transform().is_ok() { "branch.closure.affine.ok" } else { "branch.closure.affine.err" });
+        }
+        Paint::Translate(t) => unary!(t),
+        Paint::VarTranslate(t) => unary_var!(t, 2),
+        Paint::Scale(t) => unary!(t),
+        Paint::VarScale(t) => unary_var!(t, 2),
+        Paint::ScaleAroundCenter(t) => unary!(t),
+        Paint::VarScaleAroundCenter(t) => unary_var!(t, 4),
+        Paint::ScaleUniform(t) => unary!(t),
+        Paint::VarScaleUniform(t) => unary_var!(t, 1),
+        Paint::ScaleUniformAroundCenter(t) => unary!(t),
+        Paint::VarScaleUniformAroundCenter(t) => unary_var!(t, 3),
+        Paint::Rotate(t) => unary!(t),
+        Paint::VarRotate(t) => unary_var!(t, 1),
+        Paint::RotateAroundCenter(t) => unary!(t),
+        Paint::VarRotateAroundCenter(t) => unary_var!(t, 3),
+        Paint::Skew(t) => unary!(t),
+        Paint::VarSkew(t) => unary_var!(t, 2),
+        Paint::SkewAroundCenter(t) => unary!(t),
+        Paint::VarSkewAroundCenter(t) => unary_var!(t, 4),
+        Paint::Composite(c) => {
+            profile_child(colr, c.source_paint(), keys, depth, "composite.source");
+            profile_child(colr, c.backdrop_paint(), keys, depth, "composite.backdrop");
         }
     }
 }
@@ -719,7 +893,6 @@ fn run_colr(ctx: &mut Ctx) {
         let b = colr_table(&mut ctx.rng, version, order);
         ctx.count(&format!("colr.version{version}.order{order}"));
         ctx.count_n("colr.bytes", b.len() as u64);
-        colr_branches(ctx, &b.v);
         let vs = variants_of(&mut ctx.rng, &b, 6, false);
         for (i, v) in vs.iter().enumerate() {
             // closures on the base, every second prefix of the tail half, every second field variant / flip
@@ -744,13 +917,13 @@ fn run_colr(ctx: &mut Ctx) {
         t.b.u32(0).u32(0).u32(0);
         let b = t.flat();
         ctx.count(&format!("paint-format.{fmt}"));
-        colr_branches(ctx, &b.v);
         let vs = variants_of(&mut ctx.rng, &b, 2, false);
         for (i, v) in vs.iter().enumerate() {
             // the base, the prefixes that cut the paints, the field variants; lookups on the base only
             if i == 0 {
                 colr_cases(ctx, "paint", v, true);
             } else if i > 48 {
+                colr_branches(ctx, v);
                 let set: Vec<u32> = vec![2, 3, 4, 9];
                 ask(ctx, format!("hc.clos {} {}", hex(v), join(&set)), v, || colr_closures(v, &set));
             }
@@ -912,14 +1085,10 @@ fn run_svg(ctx: &mut Ctx) {
         for v in variants(&mut ctx.rng, &b, 6) {
             let gids = svg_gids(&v);
             ask(ctx, format!("hc.svg {} {}", hex(&v), join(&gids)), &v, || svg_eval(&v, &gids));
-            // branch distribution
-            if let Ok(svg) = Svg::read(FontData::new(&v)) {
-                for g in &gids {
-                    let key = match svg.glyph_data(GlyphId::new(*g)) {
-                        Ok(Some(_)) => "some",
-                        Ok(None) => "none",
-                        Err(_) => "err",
-                    };
+            // branch distribution (from the recorded response)
+            if let Some((_, resp)) = ctx.rec.cases.last() {
+                let keys: Vec<&str> = resp.split(' ').map(|w| if w == "N" { "none" } else if w.starts_with('e') || w == "rerr" { "err" } else { "some" }).collect();
+                for key in keys {
                     ctx.count(&format!("branch.svg.glyph_data.{key}"));
                 }
             }
@@ -999,17 +1168,22 @@ fn run_hdmx(ctx: &mut Ctx) {
         for v in variants(&mut ctx.rng, &b, 4) {
             for ng in [ng, ng + 1] {
                 let mut sizes: Vec<u8> = vec![0, 1, 254, 255];
-                if let Ok(h) = Hdmx::read(FontData::new(&v), ng) {
-                    for r in h.records().iter().take(8).flatten() {
-                        sizes.extend([r.pixel_size.wrapping_sub(1), r.pixel_size, r.pixel_size.wrapping_add(1)]);
-                    }
-                    for s in &sizes {
-                        ctx.count(if h.record_for_size(*s).is_some() { "branch.hdmx.found" } else { "branch.hdmx.none" });
+                // the pixel sizes of the records (first byte of each `size_device_record` bytes)
+                let size = be32(&v, 4).unwrap_or(0) as usize;
+                for i in 0..be16(&v, 2).unwrap_or(0).min(8) as usize {
+                    if let Some(px) = v.get(8 + i * size) {
+                        sizes.extend([px.wrapping_sub(1), *px, px.wrapping_add(1)]);
                     }
                 }
                 sizes.sort();
                 sizes.dedup();
                 ask(ctx, format!("hc.hdmx {} {} {}", ng, hex(&v), join(&sizes)), &v, || hdmx_eval(&v, ng, &sizes));
+                if let Some((_, resp)) = ctx.rec.cases.last() {
+                    let keys: Vec<&str> = resp.split(' ').skip(1).map(|w| if w == "N" { "branch.hdmx.none" } else { "branch.hdmx.found" }).collect();
+                    for key in keys {
+                        ctx.count(key);
+                    }
+                }
             }
         }
     }
@@ -1139,17 +1313,13 @@ fn run_meta(ctx: &mut Ctx) {
         let b = meta_bytes(&mut ctx.rng);
         ctx.count("meta.bases");
         for v in variants(&mut ctx.rng, &b, 4) {
-            if let Ok(meta) = Meta::read(FontData::new(&v)) {
-                for rec in meta.data_maps() {
-                    let key = match rec.data(meta.offset_data()) {
-                        Ok(Metadata::Other(_)) => "other".to_string(),
-                        Ok(Metadata::ScriptLangTags(_)) => "lang".to_string(),
-                        Err(e) => err_str(&e),
-                    };
+            ask(ctx, format!("hc.meta {}", hex(&v)), &v, || meta_eval(&v));
+            if let Some((_, resp)) = ctx.rec.cases.last() {
+                let keys: Vec<String> = resp.split(' ').filter(|w| *w != "-").map(|w| if w.ends_with('L') { "lang".to_string() } else if w.ends_with('O') && !w.starts_with('e') { "other".to_string() } else { w.to_string() }).collect();
+                for key in keys {
                     ctx.count(&format!("branch.meta.data.{key}"));
                 }
             }
-            ask(ctx, format!("hc.meta {}", hex(&v)), &v, || meta_eval(&v));
         }
     }
 }
